@@ -33,11 +33,12 @@ type exec struct {
 	stepNo  int
 	obs     []string
 	// bookkeeping for the generator only
-	decl     map[int][]fdecl // last declaration attempt of struct s
-	instDecl map[int][]fdecl // declaration in force when the instance was made
-	instT    map[int]int
-	aliased  map[int]bool
-	lastOut  string
+	decl      map[int][]fdecl // last declaration attempt of struct s
+	instDecl  map[int][]fdecl // declaration in force when the instance was made
+	instT     map[int]int
+	aliased   map[int]bool
+	ptrTarget map[int]int
+	lastOut   string
 }
 
 // The type registry is process-global and ImportBaseTypes binds every user-registered name as a global
@@ -74,7 +75,7 @@ func newExec(nstruct int) *exec {
 	env := zygo.NewZlisp()
 	env.StandardSetup()
 	return &exec{env: env, u: uniq, nstruct: nstruct, insts: map[int]*zygo.SexpHash{}, hashID: map[*zygo.SexpHash]int{},
-		rtLabel: map[*zygo.RegisteredType]string{}, decl: map[int][]fdecl{}, instDecl: map[int][]fdecl{}, instT: map[int]int{}, aliased: map[int]bool{}}
+		rtLabel: map[*zygo.RegisteredType]string{}, decl: map[int][]fdecl{}, instDecl: map[int][]fdecl{}, instT: map[int]int{}, aliased: map[int]bool{}, ptrTarget: map[int]int{}}
 }
 
 func (e *exec) sname(s int) string { return fmt.Sprintf("T%d_%d", s, e.u) }
@@ -141,6 +142,17 @@ func rKeyArg(k key) string {
 	switch k.kind {
 	case 'f':
 		return fmt.Sprintf("(quote f%d)", k.n)
+	case 'i':
+		return fmt.Sprintf("%d", k.n)
+	}
+	return fmt.Sprintf("\"k%d\"", k.n)
+}
+
+// the key as it is written inside a quoted form
+func rKeyRaw(k key) string {
+	switch k.kind {
+	case 'f':
+		return fmt.Sprintf("f%d", k.n)
 	case 'i':
 		return fmt.Sprintf("%d", k.n)
 	}
@@ -217,8 +229,12 @@ func (e *exec) render(o *op) string {
 			return fmt.Sprintf("{v%d.f%d = %s}", o.id, o.k.n, val)
 		case 'l':
 			return fmt.Sprintf("(set (hashidx v%d .f%d) %s)", o.id, o.k.n, val)
-		case 'j':
+		case 'j': // index assignment; a symbol key arrives as the one-element array [sym]
 			return fmt.Sprintf("{v%d[%s] = %s}", o.id, rKeyArg(o.k), val)
+		case 'k': // the index is a variable bound to the key
+			return fmt.Sprintf("(def kk%d %s) {v%d[kk%d] = %s}", e.stepNo, rKeyArg(o.k), o.id, e.stepNo, val)
+		case 'q': // hset with the key wrapped in a quoted one-element array
+			return fmt.Sprintf("(hset v%d (quote [%s]) %s)", o.id, rKeyRaw(o.k), val)
 		}
 	case 'N':
 		return fmt.Sprintf("{v%d.f%d.f%d = %s}", o.id, o.f, o.g, e.rValue(o.v))
@@ -226,6 +242,10 @@ func (e *exec) render(o *op) string {
 		return fmt.Sprintf("(hdel v%d %s)", o.id, rKeyArg(o.k))
 	case 'R':
 		return fmt.Sprintf("(derefSet (& v%d) %s)", o.id, e.rValue(o.v))
+	case 'P':
+		return fmt.Sprintf("(def p%d (& v%d))", o.pid, o.id)
+	case 'S':
+		return fmt.Sprintf("(derefSet p%d %s)", o.pid, e.rValue(o.v))
 	case 'J':
 		parts := []string{fmt.Sprintf("\"Atype\":\"%s\"", e.sname(o.s))}
 		ko := []string{}
@@ -449,6 +469,15 @@ func (e *exec) step(o *op) string {
 	}
 	if o.kind == 'R' && oc == "K" && o.v.kind == '@' {
 		e.aliased[o.id] = true
+		e.aliased[o.v.n] = true
+	}
+	if o.kind == 'P' && oc == "K" {
+		e.ptrTarget[o.pid] = o.id
+	}
+	if o.kind == 'S' && oc == "K" && o.v.kind == '@' {
+		if t, ok := e.ptrTarget[o.pid]; ok {
+			e.aliased[t] = true
+		}
 		e.aliased[o.v.n] = true
 	}
 	e.stepNo++
